@@ -80,6 +80,16 @@ CORPUS = [
      'docs': [{'s': 'abcdef', 'n': 11, 'd': {'x': 7}}, {'s': 'ab', 'n': 3, 'd': {'x': 0}}, {'s': 5, 'n': 'x'}],
      'threads': [[('construct', 0), ('validate', 0, 0), ('validate', 0, 2)], [('construct', 0), ('validate', 0, 1), ('validate', 0, 0)]],
      'cls': 'V', 'origin': 'corpus-handler-options'},
+    # one registered schema used by validators with their own rules-set registries: a reference inside it means
+    # what the registry of the validator at hand says
+    {'objs': [{'d': {'type': 'dict', 'schema': 'shared_sc'}}],
+     'schemas': {'shared_sc': {'n': 'limit', 'm': {'type': 'integer', 'coerce': int}}},
+     'thread_rules': [{'limit': {'type': 'integer', 'max': 100}}, {'limit': {'type': 'integer', 'max': 9}},
+                      {'limit': {'type': 'string'}}],
+     'cfg': {}, 'docs': [{'d': {'n': 50, 'm': '1'}}, {'d': {'n': 5, 'm': 2}}, {'d': {'n': 'x'}}],
+     'threads': [[('construct', 0), ('validate', 0, 0), ('validate', 0, 2)], [('construct', 0), ('validate', 0, 0), ('validate', 0, 1)],
+                 [('construct', 0), ('validate', 0, 2), ('validate', 0, 0)]],
+     'cls': 'V', 'origin': 'corpus-own-rules-registries'},
 ]
 
 
@@ -178,11 +188,24 @@ def step_op(sc, op, objs, cfg, held):
 def program(sc, tid, objs, cfg):
     def f():
         held = []
-        return [step_op(sc, op, objs, cfg, held) for op in sc['threads'][tid]]
+        c = cfg
+        if sc.get('thread_rules'):
+            # this thread's validators have a rules-set registry of their own
+            from cerberus.schema import RulesSetRegistry
+            reg = RulesSetRegistry()
+            for k, d in sc['thread_rules'][tid % len(sc['thread_rules'])].items():
+                reg.add(k, copy.deepcopy(d))
+            c = dict(cfg, rules_set_registry=reg)
+        return [step_op(sc, op, objs, c, held) for op in sc['threads'][tid]]
     return f
 
 
 def fresh(lazy_absent, sc=None):
+    # every run starts with free module-level locks: a lock that a defect left taken in an earlier run (or in the
+    # process this one was forked from) must show in the run that leaks it, not block the harness
+    for name, val in list(vars(cschema).items()):
+        if type(val).__name__ in ('RLock', '_RLock', 'lock'):
+            setattr(cschema, name, threading.RLock() if 'R' in type(val).__name__ else threading.Lock())
     Validator.clear_caches()
     real.clear_global_state()
     if lazy_absent and 'SchemaValidator' in vars(cschema):
@@ -281,11 +304,16 @@ def worker_stress(args):
                     res[t] = f()
                 except BaseException as e:
                     res[t] = ('raised', type(e).__name__, str(e)[:120])
-            ths = [threading.Thread(target=run, args=(t,)) for t in range(nthreads)]
+            ths = [threading.Thread(target=run, args=(t,), daemon=True) for t in range(nthreads)]
             for th in ths:
                 th.start()
+            import time
+            deadline = time.time() + 60
             for th in ths:
-                th.join(60)
+                th.join(max(0.1, deadline - time.time()))
+            for t, th in enumerate(ths):
+                if th.is_alive():
+                    res[t] = ('blocked', 'the thread did not finish within 60 s')
             for t in range(nthreads):
                 if res[t] != base[t]:
                     bad.append({'rep': rep, 'thread': t, 'nthreads': nthreads, 'got': repr(res[t])[:1500],
@@ -368,6 +396,9 @@ class Ids(object):
 
 def port_shared(ctx, drv, seed, idx):
     sc = make_scenario(seed, idx)
+    if sc.get('thread_rules'):
+        ctx.cov['out_of_domain'] += 1          # registries per thread are not part of the op-granular model
+        return
     if isinstance(sc['cfg'].get('allow_unknown'), dict):
         sc['cfg'] = dict(sc['cfg'], allow_unknown=True)       # one top-level cache transaction per construction
     rng = random.Random(seed * 31 + idx)
@@ -571,7 +602,8 @@ def explore(ctx, n_scen, per_line, two, stress_reps, wide=False, first=0):
             stress.append((ctx.seed, idx, rng.choice([2, 3, 4, 8]), stress_reps))
     procs = min(14, os.cpu_count() or 2)
     infra = []
-    with multiprocessing.get_context('fork').Pool(procs) as pool:
+    # one process per job: a thread that a defect leaves blocked (or a lock it leaves taken) must not outlive its job
+    with multiprocessing.get_context('fork').Pool(procs, maxtasksperchild=1) as pool:
         for idx, lazy_absent, bad, nplans, switches, blocks in pool.imap_unordered(worker_plans, jobs):
             ctx.cov['evaluations'] += nplans
             ctx.cov['ports']['schedules'] = ctx.cov['ports'].get('schedules', 0) + nplans
